@@ -100,6 +100,19 @@ def Py.subdivideRow (row : List K) : List K × List K :=
   let n := row.length - 1
   (rowMul row (leftMat n), rowMul row (rightMat n))
 
+/-- the statement `right_nodes[:, 0] = left_nodes[:, -1]` / `right_nodes(:, 1) = left_nodes(:, num_nodes)` with which BOTH
+    implementations end `subdivide_nodes` since the repair e1b4310 (the two matrix / Pascal-row dot products for the junction
+    point are mathematically identical but may round differently, so the value is copied).  In exact arithmetic it changes
+    nothing (`C04.withJunction_exact`); in ANY arithmetic it makes the two halves share the junction point
+    (`C04.junction_copied`). -/
+def withJunction (lr : List K × List K) : List K × List K :=
+  (lr.1, lr.2.set 0 (seq lr.1 (lr.1.length - 1)))
+
+/-- `subdivide_nodes` on one row as the current source computes it: the products, then the junction copy -/
+def Py.subdivideRowJ (row : List K) : List K × List K :=
+  let n := row.length - 1
+  withJunction (rowMul row (leftMat n), rowMul row (rightMat n))
+
 def Py.subdivide (nodes : List (List K)) : List (List K) × List (List K) :=
   (nodes.map (fun r => (Py.subdivideRow r).1), nodes.map (fun r => (Py.subdivideRow r).2))
 
@@ -128,6 +141,9 @@ def F90.subdivideGenericRow (row : List K) : List K × List K :=
     let p := seq (f90PascalRow (K := K) nn (e0+1))
     (List.range (e0+1)).foldl (fun acc pi => acc + p pi * v (nn - 1 - pi)) 0)
   (left, rightRev.reverse)
+
+/-- `subdivide_nodes_generic` on one row as the current source computes it (with the junction copy) -/
+def F90.subdivideGenericRowJ (row : List K) : List K × List K := withJunction (F90.subdivideGenericRow row)
 
 /-- `F90.subdivide_nodes` on one row: closed forms for 2, 3, 4 nodes, generic otherwise -/
 def F90.subdivideRow (row : List K) : List K × List K :=
